@@ -137,9 +137,7 @@ def shape(case) -> dict:
         "class": graph_class(n, edges, loops),
         "selfloop": bool(loops),
         "names": "distinct" if len(set(names)) == len(names) else "duplicated",
-        "io": case.get("io", "full"),
-        "vars": case.get("vars", "edge"),
-    }
+    }  # io layout / edge realisation are in the case record; cases are ordered default-first
 
 
 # ------------------------------------------------------------------------------------------------
@@ -197,8 +195,19 @@ class Body:
         if i in loops:
             self.ins.append(f"s{i}")
             self.outs.append(f"s{i}")
-        self.blocks = {v: {u: _block(v, u) for u in self.ins} for v in self.outs}
-        self.consts = {v: _const(v) for v in self.outs}
+        self._blocks = self._consts = None
+
+    @property
+    def blocks(self):  # coefficients are only needed when something is executed
+        if self._blocks is None:
+            self._blocks = {v: {u: _block(v, u) for u in self.ins} for v in self.outs}
+        return self._blocks
+
+    @property
+    def consts(self):
+        if self._consts is None:
+            self._consts = {v: _const(v) for v in self.outs}
+        return self._consts
 
     def f(self, data):
         out = {}
@@ -256,11 +265,23 @@ def _gemseo():
     class Harness(Discipline):
         def __init__(self, body: Body, name: str, defaults):
             super().__init__(name=name)
+            self.configure(body, name, defaults)
+
+        def configure(self, body: Body, name: str, defaults):
+            """(Re)define name, grammars, defaults; forget cached evaluations.  Creating a Discipline costs three OS
+            semaphores (execution statistics, ~ms each on a loaded machine), so cases re-use a small per-process pool of
+            harness objects; every process object (chains, MDAs, coupling structures) is created afresh."""
+            self.name = name
             self.body = body
-            self.input_grammar.update_from_names(body.ins)
-            self.output_grammar.update_from_names(body.outs)
+            self.io.input_grammar.clear()
+            self.io.output_grammar.clear()
+            self.io.input_grammar.update_from_names(body.ins)
+            self.io.output_grammar.update_from_names(body.outs)
             self.io.input_grammar.defaults.update({u: np.zeros(_size(u)) for u in body.ins if u in defaults})
             self.n_run = 0
+            if self.cache is not None:
+                self.cache.clear()  # a pooled object may have been executed by an earlier case
+            return self
 
         def _run(self, input_data):
             self.n_run += 1
@@ -271,13 +292,24 @@ def _gemseo():
     return _CLS
 
 
-def build(case, defaults="couplings"):
-    """The harness disciplines in node order; ``defaults``: "couplings" (zero start for every y / s), or a set."""
+_POOL: list = []
+POOLED = True  # replay() switches it off
+
+
+def build(case, defaults="couplings", pooled=False):
+    """The harness disciplines in node order; ``defaults``: "couplings" (zero start for every y / s), or a set.
+
+    ``pooled``: re-configure the objects of a per-process pool instead of creating new ones (replay uses fresh ones).
+    """
     g = _gemseo()
     bs = bodies(case)
     if defaults == "couplings":
         defaults = {u for b in bs for u in b.ins if u[0] != "x"}
-    return bs, [g["Harness"](b, case["names"][b.i], defaults) for b in bs]
+    if not pooled:
+        return bs, [g["Harness"](b, case["names"][b.i], defaults) for b in bs]
+    while len(_POOL) < len(bs):
+        _POOL.append(g["Harness"](bs[0], "pool", set()))
+    return bs, [_POOL[b.i].configure(b, case["names"][b.i], defaults) for b in bs]
 
 
 # ------------------------------------------------------------------------------------------------
@@ -355,6 +387,9 @@ def identity_schedule_invalid(case):
     return any(i > j for i, j in case["edges"])
 
 
+SAMPLE_EDGES = {3: [[0, 1], [1, 0], [2, 0]], 4: [[0, 1], [1, 0], [2, 3], [3, 0], [3, 2]]}  # the cases written out as evidence samples
+
+
 def core_key(case):
     return (case["part"], case["n"], tuple(map(tuple, case["edges"])), tuple(case["loops"]), tuple(case["names"]),
             case.get("io", "full"), case.get("vars", "edge"))
@@ -365,7 +400,7 @@ def core_key(case):
 # ------------------------------------------------------------------------------------------------
 def part_struct(case, tally):
     g = _gemseo()
-    _, discs = build(case)
+    _, discs = build(case, pooled=POOLED)
     sig = shape(case)
     try:
         cs = g["CouplingStructure"](discs)
@@ -375,7 +410,7 @@ def part_struct(case, tally):
     for inv, msg in bad:
         tally.violation({"invariant": inv, "part": "struct", **sig}, case, f"{inv}: {msg}\n  case={case}")
     tally.case(core_key(case), nontrivial=identity_schedule_invalid(case), outcome=f"n{case['n']}:{seq_outcome(seq)}",
-               sample={"case": case, "sequence": seq} if identity_schedule_invalid(case) and case["n"] > 2 and len(case["edges"]) > 2 else None)
+               sample={"case": case, "sequence": seq} if case["edges"] == SAMPLE_EDGES[4] and case["io"] == "full" and len(set(case["names"])) == 4 else None)
     return {"sequence": seq, "violations": [{"invariant": i, "message": m} for i, m in bad]}
 
 
@@ -431,7 +466,11 @@ def part_exec(case, tally):
     for listing in perms:
         procs = ["MDAChain"] + (["MDOChain"] if acyclic_plain else [])
         for proc in procs:
-            bs, discs = build(case)
+            dflt = "couplings"
+            if case.get("initdef"):  # zero start only for the couplings pointing backwards in node order and the self-loops;
+                # the others have to be produced by the MDOInitializationChain that MDAChain(initialize_defaults=True) runs first
+                dflt = {u for b in bodies(case) for u in b.ins if u[0] == "s" or (u[0] == "y" and int(u[1:].split("_")[0]) > b.i)}
+            bs, discs = build(case, defaults=dflt, pooled=POOLED)
             listed = [discs[k] for k in listing]
             seq = []
             try:
@@ -442,7 +481,8 @@ def part_exec(case, tally):
                 else:
                     inner_settings = {"n_processes": 1} if case.get("inner", "MDAJacobi") == "MDAJacobi" and not case.get("threads") else {}
                     chain = g["MDAChain"](listed, tolerance=TOL, max_mda_iter=MAX_ITER, inner_mda_name=case.get("inner", "MDAJacobi"),
-                                          inner_mda_settings=inner_settings, mdachain_parallelize_tasks=bool(case.get("parallel")))
+                                          inner_mda_settings=inner_settings, mdachain_parallelize_tasks=bool(case.get("parallel")),
+                                          initialize_defaults=bool(case.get("initdef")))
                     cs = chain.coupling_structure
                     inner = chain.inner_mdas
                 sbad, seq = check_structure(cs, discs, list(listing), case)
@@ -481,9 +521,10 @@ def part_exec(case, tally):
                 viol("each-body-runs-at-least-once", proc, listing, f"body runs per node {runs}")
             obs["runs"].append({"process": proc, "listing": list(listing), "sequence": seq, "body_runs": runs,
                                 "data": {k: np.asarray(v).tolist() for k, v in sorted(out.items())}})
-            tally.case((core_key(case), listing, proc, case.get("parallel"), case.get("threads"), case.get("inner")),
+            tally.case((core_key(case), listing, proc, case.get("parallel"), case.get("threads"), case.get("inner"), case.get("initdef")),
                        nontrivial=any(listing.index(i) > listing.index(j) for i, j in edges),
-                       outcome=f"{proc}:n{n}:{seq_outcome(seq)}:{'mda' if inner else 'chain'}")
+                       outcome=f"{proc}:n{n}:{seq_outcome(seq)}:{'mda' if inner else 'chain'}",
+                       sample={"case": case, "listing": list(listing), "sequence": seq, "body_runs": runs} if case["edges"] == SAMPLE_EDGES[3] and not loops and listing[0] == 2 else None)
     obs["reference"] = {k: v.tolist() for k, v in ref.items()}
     obs["bounds"] = {"mda": mda_bound, "rounding": eps_bound, "kappa": kappa}
     return obs
@@ -527,7 +568,7 @@ def part_init(case, tally):
         tally.violation({"invariant": inv, "part": "init", "defaults": pat, **sig}, case, f"{inv}: {msg}\n  case={case}")
         obs["violations"].append({"invariant": inv, "message": msg})
 
-    _, discs = build(case, defaults=dflt)
+    _, discs = build(case, defaults=dflt, pooled=POOLED)
     index_of = {id(d): i for i, d in enumerate(discs)}
     order = None
     try:
@@ -573,7 +614,7 @@ def part_init(case, tally):
         for i in order:
             data.update(bs[i].f(data))
         try:
-            _, discs2 = build(case, defaults=dflt)
+            _, discs2 = build(case, defaults=dflt, pooled=POOLED)
             chain = g["MDOInitializationChain"](discs2, available_data_names=available)
             out = chain.execute(dict(xin))
             for b in bs:
@@ -588,7 +629,8 @@ def part_init(case, tally):
         except Exception as e:
             viol("execution-raises", f"MDOInitializationChain: {type(e).__name__}: {str(e)[:300]}")
     obs["order"] = order
-    tally.case((core_key(case), pat), nontrivial=feasible and order != list(range(n)), outcome=f"init:{outcome}")
+    tally.case((core_key(case), pat), nontrivial=feasible and order != list(range(n)), outcome=f"init:{outcome}",
+               sample={"case": case, "order": order} if case["edges"] == SAMPLE_EDGES[3] and not case["loops"] and feasible and order != [0, 1, 2] else None)
     return obs
 
 
@@ -623,7 +665,7 @@ def cases(thorough: bool):
             # ... and one deviation at a time (thorough: every listing permutation for each)
             orders = "all" if thorough else "identity"
             devs = [{"names": nm} for k, nm in pats.items() if k != "distinct"]
-            devs += [{"io": "bare"}, {"parallel": True}, {"threads": True}, {"inner": "MDAGaussSeidel"}]
+            devs += [{"io": "bare"}, {"parallel": True}, {"threads": True}, {"inner": "MDAGaussSeidel"}, {"initdef": True}]
             if any(sum(1 for e in edges if e[0] == i) > 1 for i in range(n)):
                 devs.append({"vars": "producer"})
             if not thorough:
@@ -664,7 +706,7 @@ def run(ctx):
         "rule": "E2 full enumeration: every labelled digraph on n<=3 nodes with self-loops and on 4 nodes "
         + ("with" if ctx.thorough else "without")
         + " self-loops x name pattern x io layout x edge realisation (structure); n<=3 graphs x every listing permutation, plus one "
-        "deviation (names / bare io / parallel stages / threaded Jacobi / Gauss-Seidel / shared producer variable) for execution; "
+        "deviation (names / bare io / parallel stages / threaded Jacobi / Gauss-Seidel / initialize_defaults / shared producer variable) for execution; "
         "n<=3 graphs x 6 default-value patterns for the initialisation order.  A case is non-trivial when the listing order with one "
         "discipline per stage would not be a valid schedule (some edge points backwards in the listing)",
         "exhaustive": True,
@@ -681,7 +723,9 @@ def run(ctx):
 
 def replay(case, ctx):
     global ALPHA
+    global POOLED
     ALPHA = ctx.pick(ALPHABETS)
+    POOLED = False
     t = Tally()
     obs = PARTS[case["part"]](case, t)
     obs["case"] = case
